@@ -390,6 +390,25 @@ pub enum Op {
         exclusive: bool,
         steps: Vec<LendStep>,
     },
+    /// block until `n` calls of the run have completed (keeps a history in a fixed order while it is
+    /// spread over several threads)
+    AwaitSeq {
+        n: u32,
+    },
+    /// twin side of C16: call the registered real function directly with the mock as its dependency
+    DirectReal {
+        slot: u8,
+        m: M,
+        x: u8,
+        y: u8,
+    },
+    /// executor world (C16): create one future per task, then follow the plan (poll / drop), then
+    /// poll what is left to completion
+    AsyncGroup {
+        slot: u8,
+        tasks: Vec<(M, u8)>,
+        plan: Vec<ExecStep>,
+    },
     /// single-use / multi-use tracked value request
     Own {
         slot: u8,
@@ -400,6 +419,12 @@ pub enum Op {
         die_with_value: bool,
         fault: Option<Fault>,
     },
+}
+
+#[derive(Serialize, Deserialize, Clone, Copy, Debug, PartialEq, Eq, Hash)]
+pub enum ExecStep {
+    Poll(u8),
+    Drop(u8),
 }
 
 #[derive(Serialize, Deserialize, Clone, Copy, Debug, PartialEq, Eq, Hash)]
